@@ -42,7 +42,7 @@ CLAIMED = {
         ref="DESIGN.md section 4 C18",
         note="The user error coercer returns normally; bytes are opaque non-str values; 'locations lie inside the query text' is not decided (absent C parser)."),
     'C01': dict(
-        text="collect_fields and collect_subfields are proved equal to the CollectFields algorithm of GraphQL 6.3.2 (accumulator form: @skip/@include outcome first, response key = alias or name, first-appearance order, inline fragments / spreads under their type condition, each named fragment once per grouped set) by a loop invariant and the recursive callee contract; should_include_node and does_fragment_condition_match against their clauses; execute_operation (executor choice, root collection), execute_fields_serially (one await per key in order, ordered result map), execute_fields (one resolve_field coroutine per collected key, gathered with return_exceptions, result map pairs every key with its own awaited outcome and keeps any two keys in their collection order (first-appearance order, proved for arbitrary positions i0 < j0), every failure re-raised as one MultipleException), complete_value_catching_error and get_output_coercer (output chain = CompleteValue for the declared type); resolve_field (one ResolveInfo, the resolver stage once with the parent value, completion once against the DECLARED type with the baked coercer), get_type_resolver (field-level over type-level over schema default), ensure_valid_runtime_type (only a possible OBJECT type is accepted), abstract_coercer (type resolver asked once, runtime type's hooks once, completed as that object type), resolver_executor.",
+        text="collect_fields and collect_subfields are proved equal to the CollectFields algorithm of GraphQL 6.3.2 (accumulator form: @skip/@include outcome first, response key = alias or name, first-appearance order, inline fragments / spreads under their type condition, each named fragment once per grouped set) by a loop invariant and the recursive callee contract; should_include_node and does_fragment_condition_match against their clauses; execute_operation (executor choice, root collection), execute_fields_serially (one await per key in order, ordered result map), execute_fields (one resolve_field coroutine per collected key, gathered with return_exceptions, result map pairs every key with its own awaited outcome and keeps any two keys in their collection order (first-appearance order, proved for arbitrary positions i0 < j0), every failure re-raised as one MultipleException), complete_value_catching_error and get_output_coercer (output chain = CompleteValue for the declared type); resolve_field (one ResolveInfo, the resolver stage once with the parent value, completion once against the DECLARED type with the baked coercer), get_type_resolver (field-level over type-level over schema default), ensure_valid_runtime_type (only a possible OBJECT type is accepted), abstract_coercer (type resolver asked once, runtime type's hooks once, completed as that object type), resolver_executor; the built-in @skip / @include collection hooks (a selection is dropped exactly when the condition says so; the next stage runs once); the output enum coercer (declared value through its own hook chain).",
         ref="DESIGN.md section 4 C01",
         note="Not under contract in this revision: default_field_resolver / default_type_resolver (dynamic getattr), object_coercer / complete_object_value (named by the abstract ObjConf), build_resolve_info. Termination of fragment recursion is not verified. User resolvers and hooks are opaque."),
     'C09': dict(
@@ -62,7 +62,7 @@ CLAIMED = {
         ref="DESIGN.md section 4 C06/C07, Appendix A",
         note="22 of the 26 rules have their deciding functions under contract; not covered: values-of-correct-type, directive locations, the cycle rule, all-variables-used / all-variable-uses-defined (recursive collectors mutate lists nested in the context: outside the engine), and the context layer of the AST builder (frame pass only, C16). Deviations D2-D4, D6, D8 are not rediscovered by an obligation; D5b and D7 were found by this check and repaired in /repo."),
     'C07': dict(
-        text="The same rule functions as C06 (the equality clause is also the no_false_accept half: an ill-typed variable usage, an impossible spread at ANY site, an undefined directive / fragment target / type condition, an unused fragment, a non-input variable type, a second anonymous operation, a subscription with several root fields, an undefined field, a leaf with sub-selection ... yields an error), plus the short-circuit: parse_and_validate_query turns validator errors / any parser failure into non-empty errors and _perform_query answers such requests without calling execute, so no resolver or field-level hook runs.",
+        text="The same rule functions as C06 (the equality clause is also the no_false_accept half: an ill-typed variable usage, an impossible spread at ANY site, an undefined directive / fragment target / type condition, an unused fragment, a non-input variable type, a second anonymous operation, a subscription with several root fields, an undefined field, a leaf with sub-selection ... yields an error), plus Validators.validate (every error a rule returns is appended, an aborting rule that reported stops the following rules, nothing runs after an abort), the context layer functions _parse_inline_fragment and _parse_field, and the short-circuit: parse_and_validate_query turns validator errors / any parser failure into non-empty errors and _perform_query answers such requests without calling execute, so no resolver or field-level hook runs.",
         ref="DESIGN.md section 4 C06/C07, Appendix A",
         note="As C06: 22 of 26 rules. The context layer has one function under contract: _parse_inline_fragment registers the fragment under the ENCLOSING parent type and restores the parent type. Findings D5b (undefined `__foo` fields accepted), D7 (only the first subscription operation checked) and D4 (inline fragments registered under their own type condition) were found by this check and repaired in /repo."),
 'C08': dict(
